@@ -254,8 +254,17 @@ func runC13(c *core.Ctx) {
 				continue
 			}
 			nNon++
-			c.Check(stateGuard(rs.Ret, has), "R13.2", core.FnName(pop), "checkpoint returned only in the has-checkpoint state", core.InstrPos(rs.Ret),
-				"guarded by saveState == has-source-checkpoint", "PopCheckpoint can return a checkpoint although the source has not delivered one")
+			// equivalently: the stored source checkpoint is non-nil (the callback sets both, Pop and Resume clear both)
+			haveCk := hasGuard(rs.Ret, func(g core.Guard) bool {
+				bo, ok := g.Cond.(*ssa.BinOp)
+				if !ok || !core.IsNilConst(bo.Y) {
+					return false
+				}
+				_, n, ok := core.FieldOf(bo.X)
+				return ok && n == "sourceCheckpoint" && ((bo.Op == token.NEQ && g.Val) || (bo.Op == token.EQL && !g.Val))
+			})
+			c.Check(stateGuard(rs.Ret, has) || haveCk, "R13.2", core.FnName(pop), "checkpoint returned only when the source has delivered one", core.InstrPos(rs.Ret),
+				"guarded by saveState == has-source-checkpoint (or r.sourceCheckpoint != nil)", "PopCheckpoint can return a checkpoint although the source has not delivered one")
 			for _, o := range core.Origins(rs.Val) {
 				a, ok := o.(*ssa.Alloc)
 				if !ok {
